@@ -62,6 +62,8 @@ class World:
         self.argv: Dict[str, Any] = {}
         self.handles: List[Any] = []
         self.globals: Dict[str, Any] = {}
+        self.defaults_init: Dict[Tuple[str, int, str], Any] = {}  # mutable defaults as they were created (explanations)
+        self.defaults: Dict[Tuple[str, int, str], Any] = {}  # default values of module-level functions: evaluated once per process, as `def` does
         self.line: Optional[int] = None  # line of the statement being evaluated (for sites)
         self.categories: List[Any] = []  # category objects the adapter handed out (explanations: whose list was edited)
         self.gens: List[Any] = []  # generator objects of the evaluated program (suspended ones are closed when the evaluation ends)
@@ -1164,10 +1166,19 @@ class Runtime:
             if p not in out:
                 if p not in defaults:
                     raise TypeError(f"{fn.name}() missing required argument '{p}'")
+                key = (fn.name, fn.lineno, p)
+                shared = self.funcs.get(fn.name) is fn  # a module-level def runs once per process: every call gets the same default object
+                if shared and key in self.world.defaults:
+                    out[p] = self.world.defaults[key]
+                    continue
                 try:
                     out[p] = folder.fold(defaults[p])
                 except NotConst as ex:
                     raise Unknown(f"default of {fn.name}({p}): {ex}")
+                if shared:
+                    self.world.defaults[key] = out[p]
+                    if type(out[p]) in (dict, list, set, HSet):
+                        self.world.defaults_init[key] = copy.deepcopy(out[p])
         return out
 
     def call_function(self, fn: ast.FunctionDef, args: Sequence[Any], kw: Dict[str, Any], closure: Optional[Dict[str, Any]] = None, gen: Any = None) -> Any:
@@ -1753,6 +1764,7 @@ def _repeat_calls(chk, fi, repo, tree, text, seq, cov, entered) -> Optional[str]
     a memoised result whose mutable part the caller changed, a module-level container) may reach a later one."""
     w = World()
     done: List[str] = []
+    held: List[Any] = []
     for k, (label, args, src, dst) in enumerate(seq):
         n_ev = len(w.events)
         o = _run_lib(repo, tree, fi.qualname, text, args, cov, entered, w)
@@ -1765,7 +1777,12 @@ def _repeat_calls(chk, fi, repo, tree, text, seq, cov, entered) -> Optional[str]
             hit = next((e for e in w.events[n_ev:] if e[0] == "memo-hit"), None)
             _repeat(chk, fi, o, fresh, "; ".join(done) + "; then " + label, args[0], src, dst, hit, k)
             _disown(fresh.value)
-        _disown(o.value)
+        held.append(o.value)
+        if k == len(seq) - 2:
+            # before the last call (the first call again) the caller changes what it was handed so far; until then it only keeps
+            # the results, so both histories are seen: state that survives untouched results, and results that are shared
+            for v in held:
+                _disown(v)
         done.append(label)
     return None
 
@@ -1784,7 +1801,13 @@ def _repeat(chk, fi, second: Outcome, fresh: Outcome, what: str, cat, src, dst, 
         if hit is not None:
             how += f" - the call gets the result of `{hit[1]}` (line {hit[2]}) from its `@{hit[3]}` instead of computing it again, and the object handed out the first time was changed since (the parsed containers are edited in place; a returned mapping belongs to the caller)"
         else:
-            how += " - state of an earlier call (a cache, a module-level container) leaks into this one"
+            grown = [(k, v) for k, v in (second.world.defaults.items() if second.world is not None else []) if k in second.world.defaults_init and v != second.world.defaults_init[k]]
+            if grown:
+                (fname, line, par), v = grown[0]
+                how += f" - the default value of parameter `{par}` of {fname} (line {line}) is one object per process (defaults are evaluated when the function is defined): it was changed by an earlier call and now holds {_short(v)} instead of {_short(second.world.defaults_init[(fname, line, par)])}"
+                hit = ("default", fname, line)
+            else:
+                how += " - state of an earlier call (a cache, a module-level container) leaks into this one"
     chk.expect(same, "repeat-eval", _site(fi, hit[2]) if (hit is not None and not same) else fi.where, f"a call gives the same result late in a process as it gives in a fresh one ({what}): no state survives a call", f"calls with the same text in one process ({what}): the last call does not start from the text again - compared with the same call made in a fresh process, {how}", K(fi, f"repeat-eval:{k}"))
 
 
